@@ -49,6 +49,9 @@ structure ReqSys where
   claim : Bool := true
   /-- a failing receive only finishes the exchange it was started in (as the code does now) -/
   exchangeGuard : Bool := true
+  /-- (intermediate shape) a SUCCESSFUL receive was guarded by the exchange number too, so a late waiter that
+  consumed the current reply left the state at `expectingReply` -/
+  successGuarded : Bool := false
   nextExchange : Nat := 0
   st : ReqState := .readyToSend
   pcs : List (Nat × ReqPc) := []
@@ -87,7 +90,10 @@ def ReqSys.step (s : ReqSys) : ReqEv → ReqSys
       if s.replies == 0 then s
       else
         ({ s with replies := s.replies - 1, log := s.log ++ [.recv],
-                  st := if s.st == .expectingReply x then .readyToSend else s.st } : ReqSys).setPc t .idle
+                  -- a receive that returns a reply has consumed the reply of whatever exchange is current
+                  st := match s.st with
+                        | .expectingReply y => if s.successGuarded && y != x then s.st else .readyToSend
+                        | o => o } : ReqSys).setPc t .idle
     | _ => s
   | .recvFail t =>
     match s.pc t with
@@ -120,6 +126,21 @@ def alternates : Op → List Op → Bool
   | .recv, .recv :: rest => alternates .send rest
   | .recv, .abandoned :: rest => alternates .send rest     -- a request whose peer vanished needs no recv
   | _, _ => false
+
+/-- events by which an exchange is given up without a reply: a receive that ends without a message, or the
+peer going away -/
+def ReqEv.abandons : ReqEv → Bool
+  | .recvFail _ => true
+  | .peerDetached => true
+  | _ => false
+
+/-- no two sends without a receive or an abandoned exchange in between (`out` = a request is outstanding) -/
+def sendsSeparated : Bool → List Op → Bool
+  | _, [] => true
+  | true, .send :: _ => false
+  | false, .send :: rest => sendsSeparated true rest
+  | _, .recv :: rest => sendsSeparated false rest
+  | _, .abandoned :: rest => sendsSeparated false rest
 
 -- ---------------------------------------------------------------------------------------------
 -- REP
